@@ -301,7 +301,18 @@ impl<'a, 'b> TagBlock<'a, 'b> {
             return Ok(None);
         }
 
-        let element = self.iter.next().expect("File shouldn't end before EOI.");
+        let element = match self.iter.next() {
+            Some(element) => element,
+            // `EOI` was already consumed by an inner block whose error the caller chose to
+            // ignore (`{% comment %}`): this block is unclosed as well.
+            None => {
+                return Error::with_msg(format!(
+                    "Unclosed block. {{% {} %}} tag expected.",
+                    self.end_tag
+                ))
+                .into_err();
+            }
+        };
 
         if element.as_rule() == Rule::EOI {
             return error_from_pair(
@@ -433,7 +444,13 @@ impl<'a, 'b> TagBlock<'a, 'b> {
             end_pos = Some(element_as_span.end_pos());
         }
 
-        panic!("Function must eventually find either a Rule::EOI or a closing tag.")
+        // the iterator was already exhausted (`EOI` consumed by an inner block whose error was
+        // ignored by the caller)
+        Error::with_msg(format!(
+            "Unclosed block. {{% {} %}} tag expected.",
+            self.end_tag
+        ))
+        .into_err()
     }
 
     /// A convenient method that parses every element remaining in the block.
